@@ -1,8 +1,10 @@
 #!/usr/bin/env python3
 
 import logging
+import os
 import re
 import sys
+from contextlib import contextmanager
 from functools import cached_property
 from io import BytesIO
 from pathlib import Path
@@ -133,7 +135,7 @@ class FastaIndex:
             raise IndexUsageError(msg)
         if self.fai_file.exists():
             logging.warning(f"Overwriting FAI index file '{self.fai_file}'")
-        with self.fai_file.open("w") as idx_fh:
+        with self.open_new_file(self.fai_file) as idx_fh:
             for name, info in idx_dict.items():
                 idx_fh.write(info.fai_row(name))
 
@@ -150,8 +152,24 @@ class FastaIndex:
             raise IndexUsageError(msg)
         if self.agp_file.exists():
             logging.warning(f"Overwriting AGP assembly file '{self.agp_file}'")
-        with self.agp_file.open("w") as agp_fh:
+        with self.open_new_file(self.agp_file) as agp_fh:
             format_agp(asm, agp_fh)
+
+    @staticmethod
+    @contextmanager
+    def open_new_file(file: Path):
+        """
+        Writes to a temporary file which is renamed to `file` once it is
+        complete, so that another process (or a run after a crash) never
+        reads a partially written index file.
+        """
+        tmp_file = file.with_name(f"{file.name}.{os.getpid()}.tmp")
+        try:
+            with tmp_file.open("w") as tmp_fh:
+                yield tmp_fh
+            tmp_file.replace(file)
+        finally:
+            tmp_file.unlink(missing_ok=True)
 
     def run_indexing(self):
         idx_dict, assembly = index_fasta_file(self.fasta_file, self.buffer_size)
